@@ -294,6 +294,11 @@ def ite(c: Term, a: Term, b: Term) -> Term:
         return b
     if a == b:
         return a
+    # canonical polarity of the condition: ite(not c, a, b) == ite(c, b, a); the negative comparison forms (<=, <, !=, ne) are the negated ones
+    if isinstance(c, tuple) and c and (c[0] in ("not", "ne") or (c[0] == "cmp" and c[1] in ("<=", "<", "!="))):
+        nc = not_(c)
+        if not (isinstance(nc, tuple) and nc and nc[0] == "not"):
+            c, a, b = nc, b, a
     # a if a > b else b  ==  max(a, b)   (and the three symmetric forms)
     if isinstance(c, tuple) and c and c[0] == "cmp" and c[1] in ("<", "<=", ">", ">=") and not maybe_nan(c):
         try:
